@@ -5,6 +5,9 @@ ROOT = os.path.dirname(os.path.dirname(os.path.abspath(__file__)))
 CORE, BIN, PY3, BS, EXPR, CONT = 'construct/core.py', 'construct/lib/binary.py', 'construct/lib/py3compat.py', 'construct/lib/bitstream.py', 'construct/expr.py', 'construct/lib/containers.py'
 MUTANTS = [
     # id, property, file, old, new
+    ('nullstripped-step', 'C08', CORE, "            while end-unit >= 0 and data[end-unit:end] == pad:\n                end -= unit", "            while end-unit >= 0 and data[end-unit:end] == pad:\n                end -= 1"),
+    ('nullstripped-tail', 'C08', CORE, "if tailunit and data[-tailunit:] == pad[:tailunit]:", "if tailunit and data[-tailunit:] == pad[-tailunit:]:"),
+    ('nullstripped-plain-stream', 'C08', CORE, "            data = data[:end]\n        substream = BytesIOWithOffsets(data, stream, offset)", "            data = data[:end]\n        substream = BytesIOWithOffsets(data, stream, 0)"),
     ('entry-parse-flag', 'C07', CORE, "        context._parsing = True\n        context._building = False\n        context._sizing = False\n        context._params = context\n        try:", "        context._parsing = True\n        context._building = True\n        context._sizing = False\n        context._params = context\n        try:"),
     ('entry-sizeof-path', 'C18', CORE, 'return self._sizeof(context, "(sizeof)")', 'return self._sizeof(context, "(sizing)")'),
     ('entry-build-params-copy', 'C07', CORE, "        context._sizing = False\n        context._params = context\n        self._build(obj, stream, context, \"(building)\")", "        context._sizing = False\n        context._params = Container(**contextkw)\n        self._build(obj, stream, context, \"(building)\")"),
